@@ -300,7 +300,16 @@ def gen_script(ctx, f, depth, recv_cls=None, top=False):
                     acts.append({"a": "step", "h": a["h"], "mode": 0, "catch": rng.random() < 0.8})
                 continue
     if f is not None:
-        acts.extend(gen_exit(ctx, f))
+        if names and rng.random() < 0.12:
+            # exit by returning a parameter object itself, after (possibly) re-binding it
+            if rng.random() < 0.6:
+                pn = rng.choice(names)
+                acts.append({"a": "rebind", "p": pn, "v": V.gen_value(rng, ctx.kn, ctx.classes)})
+                acts.append({"a": "retp", "p": pn})
+            else:
+                acts.append({"a": "retp", "p": rng.choice(names)})
+        else:
+            acts.extend(gen_exit(ctx, f))
     return acts
 
 
@@ -386,6 +395,8 @@ class Mat:
                 out.append((16, self.aio_closure(a)))
             elif k == "rnd":
                 out.append((17,))
+            elif k == "retp":
+                out.append((18, a["p"]))
             elif k == "await":
                 out.append((13,))
             elif k == "awaitcall":
